@@ -7,11 +7,13 @@ import PM
 import Driver.Codec
 import Driver.Base
 import Driver.ExtResolve
+import Driver.ExtUndo
 open Lean (Json)
 open PM PM.Codec
 
 def extHandlers : List (St → String → Json → Option (D (St × Json))) := [
-  handleResolve]
+  handleResolve,
+  handleUndo]
 
 def handleExt (st : St) (op : String) (j : Json) : D (St × Json) :=
   match extHandlers.findSome? (fun h => h st op j) with
